@@ -142,9 +142,17 @@ static void INThandler(int sig)
     DISPLAY("\n");
     exit(2);
 }
+/* A fatal error ends the program through exit() (see EXM_THROW()) :
+ * do not leave the unfinished destination file behind. */
+static void removeArtefactAtExit(void)
+{
+    if (g_artefact) remove(g_artefact);
+}
 static void addHandler(char const* dstFileName)
 {
     if (UTIL_isRegularFile(dstFileName)) {
+        static int atexitRegistered = 0;
+        if (!atexitRegistered) atexitRegistered = !atexit(removeArtefactAtExit);
         g_artefact = dstFileName;
         signal(SIGINT, INThandler);
     } else {
